@@ -1,6 +1,7 @@
 package main
 
 import (
+	"go/types"
 	"go/token"
 	"strings"
 
@@ -342,6 +343,65 @@ func runC20Rest(c *Ctx) {
 			}
 		}
 		c.Check("C20-R4", "resend-started-after-rescan", rs.Pos(), started, "resendUnminedTxs is no longer started from the rescan-finished handler")
+		// ... unconditionally: in the handler, from the point where a finished-rescan message has been received (the select
+		// state receiving from w.rescanFinished), every path to the next loop iteration starts the re-offer
+		if rph := walletFn(c, "C20-R4", "rescanProgressHandler"); rph != nil {
+			nArm := 0
+			for _, f := range Closures(rph) {
+				loops := loopsOf(f)
+				for _, b := range f.Blocks {
+					for _, ins := range b.Instrs {
+						sel, ok := ins.(*ssa.Select)
+						if !ok {
+							continue
+						}
+						idx := -1
+						for i, st := range sel.States {
+							if st.Dir == types.RecvOnly {
+								if _, fld, _, okf := fieldOf(stripConv(st.Chan)); okf && fld == "rescanFinished" {
+									idx = i
+								}
+							}
+						}
+						if idx < 0 {
+							continue
+						}
+						l := innermostLoopOf(loops, sel)
+						if l == nil {
+							continue
+						}
+						// the edge taken when state idx fired: `extract sel #0 == idx`
+						for _, bb := range f.Blocks {
+							for si := range bb.Succs {
+								ef := edgeFactOf(bb, si)
+								if ef == nil || ef.Kind != "true" {
+									continue
+								}
+								bo, ok := ef.V.(*ssa.BinOp)
+								if !ok || bo.Op != token.EQL {
+									continue
+								}
+								ex, ok := bo.X.(*ssa.Extract)
+								k, okk := constInt(bo.Y)
+								if !ok || !okk || ex.Tuple != ssa.Value(sel) || ex.Index != 0 || int(k) != idx {
+									continue
+								}
+								nArm++
+								q := &PathQuery{Fn: f, Barrier: func(i ssa.Instruction) bool {
+									g, ok := i.(*ssa.Go)
+									return ok && p.callReaches(g, map[*ssa.Function]bool{rs: true})
+								}}
+								q.LoopExit = func(from, to *ssa.BasicBlock) bool { return to == l.Header }
+								hits := exploreFromBlock(q, bb.Succs[si], bb)
+								c.Check("C20-R4", "finished-rescan-always-starts-resend", sel.Pos(), len(hits) == 0,
+									"rescanProgressHandler can finish handling a completed rescan without starting resendUnminedTxs (e.g. when the batch had no addresses): unconfirmed transactions are not re-offered after that synchronisation")
+							}
+						}
+					}
+				}
+			}
+			c.Floor("C20-R4", "finished-rescan arms", nArm, 1)
+		}
 	}
 	checkRescanEventsForwarded(c, "C20-R4")
 	checkConflictRemoval(c, "C20-R5")
